@@ -93,6 +93,18 @@ def main():
             sh(['git', '-C', str(V), 'checkout', '--', 'lean/Mahotas/Generated'])
     dst = V / 'seeded' / name
     dst.mkdir(parents=True, exist_ok=True)
+    if meta.get('patch_applies') and not meta.get('confirmed') and (dst / 'meta.json').exists():
+        # a re-verification against a later /repo on which the change no longer breaks the property (its demonstration passes
+        # with the patch applied: a repair made since then absorbs it): keep the earlier record and say so
+        old = json.loads((dst / 'meta.json').read_text())
+        if old.get('confirmed'):
+            old['note_reverify'] = (f"at /repo {meta['base'][:10]} the demonstration no longer fails with the patch applied (demo exit "
+                                    f"{meta.get('demo_patched_exit')}, suite {meta.get('suite_passed')} passed): a later repair absorbs the change; "
+                                    f"record kept from base {old.get('base', '?')[:10]}; checks on the later tree: "
+                                    + ', '.join(f"{c} exit {r['exit']}" for c, r in (meta.get('checks') or {}).items()))
+            (dst / 'meta.json').write_text(json.dumps(old, indent=1) + '\n')
+            print(json.dumps(dict(name=name, kept_old_record=True, no_longer_a_violation=True, detected_by=old.get('detected_by'))))
+            return
     if meta.get('patch_applies') is False and (dst / 'meta.json').exists():
         # a re-verification against a later /repo on which the patch no longer applies: keep the earlier record
         old = json.loads((dst / 'meta.json').read_text())
